@@ -68,6 +68,22 @@ def step (line : String) : String :=
           else
             let vals := (indices out.shape).map fun i => toString (out.get i)
             s!"{od} {shapeStr out.shape} | " ++ " ".intercalate vals
+  | ["red", sh, bd, ax] =>
+    -- red <shape> <bdim> <axes: none | a,b,..>  ->  <moved shape> <axesFull> <outdim>
+    match parseShape sh, bd.toNat? with
+    | some s, some b =>
+      let axes : Option (List Int) := if ax == "none" then none else (ax.splitOn ",").mapM String.toInt?
+      if ax != "none" && axes.isNone then "bad-op" else
+      let r := reductionBatchRule s b axes
+      s!"{shapeStr r.1} {",".intercalate (r.2.1.map toString)} {r.2.2}"
+    | _, _ => "bad-op"
+  | ["rsh", kd, ax, sh] =>
+    -- rsh <0|1> <axes a,b|-> <shape> -> reduced shape
+    match parseShape sh with
+    | some s =>
+      let axes : List Nat := if ax == "-" then [] else ((ax.splitOn ",").filterMap String.toNat?)
+      shapeStr (reduceShape (kd == "1") axes s)
+    | none => "bad-op"
   | _ => "bad-op"
 
 partial def loop (h : IO.FS.Stream) : IO Unit := do
